@@ -1,5 +1,6 @@
 """Spec cases of the families the Lean models cover end to end -> RTV/Gen/SpecCases.lean:
-Specs/Sequence/*/IpAddressModel*.json, Specs/Sequence/*/GUIDModel*.json, Specs/Choice/English/BooleanModel*.json —
+Specs/Sequence/*/IpAddressModel*.json, GUIDModel*.json, HashtagModel*.json, MentionModel*.json, EmailModel*.json,
+URLModel*.json, Specs/Choice/English/BooleanModel*.json —
 Python-supported cases only (as harness/lib/specs.iter_cases() marks them).  Each case is emitted with exactly the
 fields the repository's runner compares (Python/tests/test_runner_sequence.py, test_runner_choice.py): number of
 results, TypeName, Text, Resolution.value, and Resolution.score when the spec states one (sequence runner only)."""
@@ -16,7 +17,7 @@ def L(s):
 
 def families():
     """-> {'ipEn': [...], 'ipZh': [...], 'guid': [...], 'bool': [...]} of (file, index, input, results)"""
-    fam = {'ipEn': [], 'ipZh': [], 'guid': [], 'bool': []}
+    fam = {'ipEn': [], 'ipZh': [], 'guid': [], 'bool': [], 'hashtag': [], 'mention': [], 'email': [], 'urlEn': [], 'urlZh': []}
     for c in specs.iter_cases():
         if not c['supported'] or c['entity'] != 'Model':
             continue
@@ -25,6 +26,11 @@ def families():
             key = 'ipZh' if c['culture'].lower().startswith(('zh-', 'ja-')) else 'ipEn'
         elif c['recognizer'] == 'Sequence' and c['model'] == 'GUID':
             key = 'guid'
+        elif c['recognizer'] == 'Sequence' and c['model'] in ('Hashtag', 'Mention', 'Email') and c['language'] == 'English':
+            key = c['model'].lower()
+        elif c['recognizer'] == 'Sequence' and c['model'] == 'URL':
+            # recognize_url routes zh-* / ja-* to the Chinese configuration
+            key = 'urlZh' if c['culture'].lower().startswith(('zh-', 'ja-')) else 'urlEn'
         elif c['recognizer'] == 'Choice' and c['model'] == 'Boolean' and c['language'] == 'English':
             key = 'bool'
         else:
@@ -37,7 +43,7 @@ def generate():
     fam = families()
     text = HEADER % ('speccases', 'Specs/Sequence/*/IpAddressModel*.json, GUIDModel*.json, Specs/Choice/English/BooleanModel*.json')
     text += 'set_option maxRecDepth 1000000\nnamespace RTV.Gen\n\n'
-    for key in ('ipEn', 'ipZh'):
+    for key in ('ipEn', 'ipZh', 'hashtag', 'mention', 'email', 'urlEn', 'urlZh'):
         rows = []
         for f, i, inp, res in fam[key]:
             exp = ', '.join('(%s, %s, %s)' % (L(r['TypeName']), L(r['Text']), L(str(r['Resolution']['value']))) for r in res)
